@@ -354,7 +354,9 @@ Fixpoint decode_matches_loop (fixed : bool) (fuel : nat) (r : br) (total : N) (a
   match fuel with
   | O => ret (Z.of_N total :: acc)
   | S f =>
-      if has_bits 3 r then
+      (* MIN_ENCODED_MATCH_BITS = 8: fewer than 8 remaining bits are BitWriter::finish padding
+         (loop guard since fix 25f70e1; it was has_bits(3) before) *)
+      if has_bits 8 r then
         '(obs, bits, r') <- decode_match_m fixed r ;;
         decode_matches_loop fixed f r' (total + bits) (acc ++ obs)
       else ret (Z.of_N total :: acc)
